@@ -280,5 +280,6 @@ def explore(ex, key, c, first_choice=None):
             st = ex.st
             pr = PathResult(ci, list(oracle.prefix), outcome, st.obligations if err is None else [], getattr(st, 'inputs', {}), err)
             pr.old_heap = st.old_heap or {}
+            pr.final_pc = list(st.pc)
             results.append(pr)
     return results, unsupported
